@@ -33,6 +33,27 @@ impl SerializableValue {
         property_code: &PropertyCode,
         diagnostics: &mut Diagnostics,
     ) -> Option<Self> {
+        let v = Self::build_unchecked(ctx, property_code, diagnostics)?;
+        if let Some(c) = v.find_non_xml_char() {
+            // would otherwise make the .ui file ill-formed
+            diagnostics.push(Diagnostic::error(
+                property_code.node().byte_range(),
+                format!(
+                    "character U+{:04X} cannot be represented in UI XML",
+                    c as u32
+                ),
+            ));
+            None
+        } else {
+            Some(v)
+        }
+    }
+
+    fn build_unchecked(
+        ctx: &ObjectContext,
+        property_code: &PropertyCode,
+        diagnostics: &mut Diagnostics,
+    ) -> Option<Self> {
         let node = property_code.node();
         match property_code.kind() {
             PropertyCodeKind::Expr(ty, code) => {
@@ -117,6 +138,22 @@ impl SerializableValue {
         }
     }
 
+    /// Finds a character which isn't allowed in XML 1.0 document (even if escaped.)
+    fn find_non_xml_char(&self) -> Option<char> {
+        match self {
+            SerializableValue::Simple(x) => x.find_non_xml_char(),
+            SerializableValue::Gadget(x) => x
+                .attributes
+                .values()
+                .find_map(|v| v.find_non_xml_char())
+                .or_else(|| x.properties.values().find_map(|v| v.find_non_xml_char())),
+            SerializableValue::PaletteColorGroup(_) => None, // colors only
+            SerializableValue::StringList(xs, _) => {
+                xs.iter().find_map(|s| xmlutil::find_non_xml_char(s))
+            }
+        }
+    }
+
     pub fn as_number(&self) -> Option<f64> {
         match self {
             SerializableValue::Simple(x) => x.as_number(),
@@ -186,6 +223,16 @@ impl SimpleValue {
                 writer.write_event(Event::End(tag.to_end()))
             }
             _ => xmlutil::write_tagged_str(writer, tag_name, self.to_string()),
+        }
+    }
+
+    fn find_non_xml_char(&self) -> Option<char> {
+        use SimpleValue::*;
+        match self {
+            Bool(_) | Number(_) => None,
+            String(s, _) | Cstring(s) | Enum(s) | Set(s) | CursorShape(s) | Pixmap(s) => {
+                xmlutil::find_non_xml_char(s)
+            }
         }
     }
 
@@ -437,8 +484,21 @@ pub(super) fn build_item_model(
             let res = property_code.evaluate()?; // no warning; to be processed by cxx pass
             let ty = TypeKind::List(Box::new(TypeKind::STRING));
             verify_code_return_type(node, code, &ty, diagnostics)?;
-            let items = res
-                .unwrap_string_list()
+            let strings = res.unwrap_string_list();
+            if let Some(c) = strings
+                .iter()
+                .find_map(|(s, _)| xmlutil::find_non_xml_char(s))
+            {
+                diagnostics.push(Diagnostic::error(
+                    node.byte_range(),
+                    format!(
+                        "character U+{:04X} cannot be represented in UI XML",
+                        c as u32
+                    ),
+                ));
+                return None;
+            }
+            let items = strings
                 .into_iter()
                 .map(|(s, k)| ModelItem::with_text(s, k))
                 .collect();
